@@ -4,7 +4,8 @@ Model: lean/HydroVerif/Model/C03.lean (`c_crps` with use_weights=0/is_sorted=0 +
 theorems: lean/HydroVerif/Props/C03.lean; lemmas: lean/HydroVerif/Lemmas/C03Energy.lean, C03.lean.
 
 Correspondence: every case is run through `hydrodiy.stat.metrics.crps` (extension rebuilt from the working
-tree) and through the model driver; the 5 decomposition numbers and the whole (m+1)x7 table are compared with
+tree) and through the model driver; the 5 decomposition numbers and the (m+1)x7 table (except the 0/0 cells of
+empty inner bins, which the property does not constrain) are compared with
 the Float instance (<= 4 ulp; `resolution` condition-scaled because it is a difference), error kinds are
 compared by name, and on small cases the exact Rat instance is compared with the code to 1e-11 relative.
 
